@@ -4,6 +4,7 @@ import SJ.Proofs.RoundTripWF
 import SJ.Props.C02
 import SJ.Props.C01
 import SJ.Props.C09
+import SJ.Proofs.ParsedFinite
 /-!
 # C04 — serialise then deserialise is the identity (the `Value` clause)
 
@@ -34,6 +35,9 @@ The theorems are obtained **by composition**:
   `float_roundtrip` this is C07's corollary for a correct shortest-digits printer; in the other
   builds it holds for doubles printing as short literals (C08's exact case). A hypothesis, never an
   axiom; `c04_value_nofloat` and `c04_value_ap` do not need it at all.
+* `c04_wf_of_parse`: whatever the parser returns is `WFValue` (no float hypothesis: the conversions return
+  finite floats only, `c04_parsed_floats_finite`, from C08 / `SJ/Proofs/ParsedFinite.lean`), hence
+  `c04_reparse`: serialise-then-parse of any parsed value gives it back.
 -/
 namespace SJ.Props.C04
 open SJ SJ.Model.Ser SJ.Model.Machine SJ.Spec.Grammar SJ.Spec.Image SJ.Spec.WF
@@ -261,20 +265,44 @@ example : WFValue {} (.num (.float 0x4004000000000000)) ∧ ¬ FloatsRoundTrip {
 
 /-! ## every value the parser returns is well-formed — so the round trip applies to it -/
 
-/-- **C04 (`wf_of_parse`) — partial.** Whatever `from_slice` / `from_reader` return satisfies the
-    representation invariant: integers in range, strings and keys valid UTF-8, keys sorted (distinct
-    under `preserve_order`), literals well-formed (`arbitrary_precision`), depth ≤ 127 unless the limit
-    is off. Missing, hence hypotheses: (1) `finiteFloats v`: the floats of the returned value are finite
-    — that the configured conversion never returns an infinity or NaN is the finiteness clause of C07
-    (`float_roundtrip`) / C08 (default), a statement about `Spec.Ieee` rounding that is not proved here
-    (see `c04_wf_of_parse_finite` for the form with that clause as hypothesis); on a concrete value it is
-    checked by evaluation. (2) `src ≠ .str`: `from_str` does not re-validate UTF-8; its input is valid
-    UTF-8 by type, and with that as hypothesis the same holds: `c04_wf_of_parse_str_partial` below. -/
-theorem c04_wf_of_parse_partial (cfg : Cfg) (src : Src) (hsrc : src ≠ .str) (bs : Bytes) (v : JV)
-    (h : parseTop ⟨cfg, src, .value⟩ bs = .ok v) (hfin : finiteFloats v = true) : WFValue cfg v := by
-  obtain ⟨t, ht, hc, hd, _, hu, _⟩ := SJ.Props.C02.c02_denotes ⟨cfg, src, .value⟩ rfl bs v h
+/-- **C04 (the finiteness clause of C07 / C08).** In every configuration the configured number conversion
+    makes finite floats only of well-formed literals: the default build's `f64_from_parts` path is
+    `Model.FloatDefault` (C08: `c08_finite_signed` through the link `c08p_link`), the `float_roundtrip`
+    conversion returns a `roundNE64` result (which is `none`, i.e. `NumberOutOfRange`, rather than an
+    infinity) or a signed zero, and `arbitrary_precision` makes no float. -/
+theorem c04_parsed_floats_finite (cfg : Cfg) : ParsedFloatsFinite (specCfg cfg) :=
+  Proofs.ParsedFinite.parsedFloatsFinite (specCfg cfg)
+
+/-- `1.7976931348623157e308` (the largest double) is converted to `0x7fefffffffffffff` in both builds;
+    `1.8e308` is rejected — never an infinity -/
+example : Spec.Canon.numOf { fr := true } ⟨false, [0x31], [0x2e, 0x37, 0x39, 0x37, 0x36, 0x39, 0x33, 0x31, 0x33, 0x34,
+      0x38, 0x36, 0x32, 0x33, 0x31, 0x35, 0x37], [0x65, 0x33, 0x30, 0x38]⟩ == some (.float 0x7fefffffffffffff) ∧
+    Spec.Canon.numOf { fr := true } ⟨false, [0x31], [0x2e, 0x38], [0x65, 0x33, 0x30, 0x38]⟩ == none ∧
+    Spec.Canon.numOf {} ⟨false, [0x31], [0x2e, 0x38], [0x65, 0x33, 0x30, 0x38]⟩ == none := by decide +kernel
+
+/-- **C04 (`wf_of_parse`).** Whatever the parser returns — from any source, in any configuration —
+    satisfies the representation invariant: integers in range, floats finite, strings and keys valid
+    UTF-8, keys sorted (distinct under `preserve_order`), literals well-formed (`arbitrary_precision`),
+    depth ≤ 127 unless the limit is off. For `from_str` the input is valid UTF-8 (what the type `&str`
+    guarantees; `from_str` does not re-validate — by C09 it then returns what `from_slice` returns);
+    byte sources check it themselves. No hypothesis on floats. -/
+theorem c04_wf_of_parse (env : Env) (henv : env.tgt = .value) (bs : Bytes) (v : JV)
+    (h : parseTop env bs = .ok v) (hutf : env.src = .str → Spec.Utf8.validUtf8 bs = true) :
+    WFValue env.cfg v := by
+  obtain ⟨cfg, src, tgt⟩ := env
+  simp only at henv hutf ⊢
+  subst henv
+  have h' : ∃ src', src' ≠ .str ∧ parseTop ⟨cfg, src', .value⟩ bs = .ok v := by
+    cases src with
+    | str => exact ⟨.slice, by decide, by rw [← SJ.Props.C09.c09_str_slice_value cfg bs (hutf rfl)]; exact h⟩
+    | slice => exact ⟨.slice, by decide, h⟩
+    | reader => exact ⟨.reader, by decide, h⟩
+  obtain ⟨src', hsrc, h'⟩ := h'
+  obtain ⟨t, ht, hc, hd, _, hu, _⟩ := SJ.Props.C02.c02_denotes ⟨cfg, src', .value⟩ rfl bs v h'
   obtain ⟨w1, vb, w2, _, _, _, hder⟩ := ht
-  have hs := shape_of_canonM cfg t v (numsWF_of_derives hder) (hu hsrc) hc
+  have hnw := numsWF_of_derives hder
+  have hs := shape_of_canonM cfg t v hnw (hu hsrc) hc
+  have hfin := finite_of_canonM cfg (c04_parsed_floats_finite cfg) t v hnw hc
   simp only [WFValue, wfValue, Bool.and_eq_true, Bool.or_eq_true, decide_eq_true_eq]
   refine ⟨hs.1 hfin, ?_⟩
   rcases hd with hd | hd
@@ -282,7 +310,7 @@ theorem c04_wf_of_parse_partial (cfg : Cfg) (src : Src) (hsrc : src ≠ .str) (b
   · exact .inr (by have := hs.2; omega)
 
 /-- ` { "b" : 1.5 , "a" : [ -7, "é" ] , "b" : 18446744073709551615 } ` in the default build:
-    duplicate key, blanks, an escape — the value read has no float, is well-formed and round-trips -/
+    duplicate key, blanks, an escape — the value read is well-formed and round-trips -/
 def exDoc : Bytes :=
   [0x20, 0x7b, 0x22, 0x62, 0x22, 0x3a, 0x31, 0x2e, 0x35, 0x2c, 0x22, 0x61, 0x22, 0x3a, 0x5b, 0x2d, 0x37, 0x2c, 0x22, 0x5c,
    0x75, 0x30, 0x30, 0x65, 0x39, 0x22, 0x5d, 0x2c, 0x22, 0x62, 0x22, 0x3a, 0x31, 0x38, 0x34, 0x34, 0x36, 0x37, 0x34, 0x34,
@@ -292,61 +320,15 @@ def exDocV : JV :=
 
 example : parseTop ⟨{}, .slice, .value⟩ exDoc = .ok exDocV := rfl
 
-example : WFValue {} exDocV := c04_wf_of_parse_partial {} .slice (by decide) exDoc exDocV rfl rfl
+example : WFValue {} exDocV := c04_wf_of_parse ⟨{}, .slice, .value⟩ rfl exDoc exDocV rfl (fun h => by cases h)
 
-/-- the same with the finiteness clause of C07 / C08 as a hypothesis on the conversion
-    (`ParsedFloatsFinite`: a well-formed literal is never converted to an infinity or NaN) -/
-theorem c04_wf_of_parse_finite (cfg : Cfg) (src : Src) (hsrc : src ≠ .str)
-    (hfin : ParsedFloatsFinite (specCfg cfg)) (bs : Bytes) (v : JV)
-    (h : parseTop ⟨cfg, src, .value⟩ bs = .ok v) : WFValue cfg v := by
-  obtain ⟨t, ht, hc, _⟩ := SJ.Props.C02.c02_denotes ⟨cfg, src, .value⟩ rfl bs v h
-  obtain ⟨w1, vb, w2, _, _, _, hder⟩ := ht
-  exact c04_wf_of_parse_partial cfg src hsrc bs v h (finite_of_canonM cfg hfin t v (numsWF_of_derives hder) hc)
+/-- a float is read: `[2.5e-1]` ↦ 0.25, from a reader under `float_roundtrip`; the value is well-formed
+    (in particular the float is finite) by the theorem, not by evaluation -/
+example (v : JV) (h : parseTop ⟨{ fr := true }, .reader, .value⟩ [0x5b, 0x32, 0x2e, 0x35, 0x65, 0x2d, 0x31, 0x5d] = .ok v) :
+    WFValue { fr := true } v := c04_wf_of_parse ⟨{ fr := true }, .reader, .value⟩ rfl _ v h (fun h => by cases h)
 
-/-- **`arbitrary_precision`: no float hypothesis** — numbers are kept as literals, so the finiteness
-    clause is vacuous: every value returned from a byte source is well-formed, and therefore
-    (`c04_value_ap`) survives serialise-then-deserialise unchanged. -/
-theorem c04_wf_of_parse_ap (cfg : Cfg) (hap : cfg.ap = true) (src : Src) (hsrc : src ≠ .str)
-    (bs : Bytes) (v : JV) (h : parseTop ⟨cfg, src, .value⟩ bs = .ok v) :
-    WFValue cfg v ∧ ∀ (ext : Ext), ExtOK ext → ∀ src',
-      ∃ bufs, serCompact ext (ofValue v) = .ok bufs ∧ parseTop ⟨cfg, src', .value⟩ bufs.flatten = .ok v := by
-  have hfin : ParsedFloatsFinite (specCfg cfg) := by
-    intro p b _ hn
-    have : (specCfg cfg).ap = true := hap
-    simp [Spec.Canon.numOf, this] at hn
-  have hwf := c04_wf_of_parse_finite cfg src hsrc hfin bs v h
-  exact ⟨hwf, fun ext hext src' => (c04_value_ap cfg hap src' ext hext v hwf).1⟩
-
-/-- ` { "b" : 1.0 , "a" : [ 1E400 ] , "b" : -0 } ` under `arbitrary_precision`: a literal without `f64`
-    value and `-0` are kept verbatim -/
-example : parseTop ⟨{ ap := true }, .slice, .value⟩
-      [0x20, 0x7b, 0x22, 0x62, 0x22, 0x3a, 0x31, 0x2e, 0x30, 0x2c, 0x22, 0x61, 0x22, 0x3a, 0x5b, 0x31, 0x45, 0x34, 0x30, 0x30,
-       0x5d, 0x2c, 0x22, 0x62, 0x22, 0x3a, 0x2d, 0x30, 0x7d, 0x20]
-    = .ok (.obj [([0x61], .arr [.num (.lit [0x31, 0x45, 0x34, 0x30, 0x30])]), ([0x62], .num (.lit [0x2d, 0x30]))]) := rfl
-
-/-- **re-serialising what was parsed and parsing again gives the same value** (byte sources):
-    `from_slice(to_vec(from_slice(bs))) = from_slice(bs)` whenever the floats of the value read are
-    finite and returned by the printer/parser pair (both vacuous for a value without floats). -/
-theorem c04_reparse_partial (cfg : Cfg) (src : Src) (hsrc : src ≠ .str) (ext : Ext) (hext : ExtOK ext)
-    (bs : Bytes) (v : JV) (h : parseTop ⟨cfg, src, .value⟩ bs = .ok v)
-    (hfin : finiteFloats v = true) (hfl : FloatsRoundTrip cfg ext v) :
-    ∃ bufs, serCompact ext (ofValue v) = .ok bufs ∧ parseTop ⟨cfg, src, .value⟩ bufs.flatten = .ok v :=
-  c04_value cfg src ext hext v (c04_wf_of_parse_partial cfg src hsrc bs v h hfin) hfl
-
-example : ∃ bufs, serCompact ext0 (ofValue exDocV) = .ok bufs ∧
-    parseTop ⟨{}, .slice, .value⟩ bufs.flatten = .ok exDocV :=
-  c04_reparse_partial {} .slice (by decide) ext0 ext0_ok exDoc exDocV rfl rfl (by decide)
-
-/-! ## the `&str` source: the input is valid UTF-8 by type, so nothing is lost by not re-checking -/
-
-/-- **C04 (`wf_of_parse`, `from_str`) — partial.** Whatever `from_str` returns on a valid UTF-8 input (every
-    `&str`) satisfies the representation invariant. Same missing clause as `c04_wf_of_parse_partial`
-    (finiteness of parsed floats, C07/C08). By C09: on valid UTF-8 input `from_str` and `from_slice`
-    return the same value (`c09_str_slice_value`). -/
-theorem c04_wf_of_parse_str_partial (cfg : Cfg) (bs : Bytes) (hutf : Spec.Utf8.validUtf8 bs = true) (v : JV)
-    (h : parseTop ⟨cfg, .str, .value⟩ bs = .ok v) (hfin : finiteFloats v = true) : WFValue cfg v := by
-  rw [SJ.Props.C09.c09_str_slice_value cfg bs hutf] at h
-  exact c04_wf_of_parse_partial cfg .slice (by decide) bs v h hfin
+example : (parseTop ⟨{ fr := true }, .reader, .value⟩ [0x5b, 0x32, 0x2e, 0x35, 0x65, 0x2d, 0x31, 0x5d]).isOk
+    (.arr [.num (.float 0x3fd0000000000000)]) = true := by decide +kernel
 
 /-- `{"é":"é😀"}` (raw key, escaped value) from a `&str` -/
 def exStrDoc : Bytes :=
@@ -356,43 +338,60 @@ def exStrDocV : JV := .obj [([0xc3, 0xa9], .str [0xc3, 0xa9, 0xf0, 0x9f, 0x98, 0
 example : parseTop ⟨{}, .str, .value⟩ exStrDoc = .ok exStrDocV := rfl
 
 example : WFValue {} exStrDocV :=
-  c04_wf_of_parse_str_partial {} exStrDoc (by decide +kernel) exStrDocV rfl rfl
+  c04_wf_of_parse ⟨{}, .str, .value⟩ rfl exStrDoc exStrDocV rfl (fun _ => by decide +kernel)
 
 /-- the UTF-8 hypothesis is needed: the model of `from_str` fed non-UTF-8 bytes returns an ill-formed value -/
 example : parseTop ⟨{}, .str, .value⟩ [0x22, 0xff, 0x22] = .ok (.str [0xff]) ∧ ¬ WFValue {} (.str [0xff]) :=
   ⟨rfl, by decide +kernel⟩
 
-/-- with the finiteness clause of C07 / C08 as a hypothesis on the conversion -/
-theorem c04_wf_of_parse_str_finite (cfg : Cfg) (hfin : ParsedFloatsFinite (specCfg cfg)) (bs : Bytes)
-    (hutf : Spec.Utf8.validUtf8 bs = true) (v : JV) (h : parseTop ⟨cfg, .str, .value⟩ bs = .ok v) :
-    WFValue cfg v := by
-  rw [SJ.Props.C09.c09_str_slice_value cfg bs hutf] at h
-  exact c04_wf_of_parse_finite cfg .slice (by decide) hfin bs v h
+/-- ` { "b" : 1.0 , "a" : [ 1E400 ] , "b" : -0 } ` under `arbitrary_precision`: a literal without `f64`
+    value and `-0` are kept verbatim -/
+example : parseTop ⟨{ ap := true }, .slice, .value⟩
+      [0x20, 0x7b, 0x22, 0x62, 0x22, 0x3a, 0x31, 0x2e, 0x30, 0x2c, 0x22, 0x61, 0x22, 0x3a, 0x5b, 0x31, 0x45, 0x34, 0x30, 0x30,
+       0x5d, 0x2c, 0x22, 0x62, 0x22, 0x3a, 0x2d, 0x30, 0x7d, 0x20]
+    = .ok (.obj [([0x61], .arr [.num (.lit [0x31, 0x45, 0x34, 0x30, 0x30])]), ([0x62], .num (.lit [0x2d, 0x30]))]) := rfl
 
-example : ParsedFloatsFinite (specCfg { ap := true }) := by
-  intro p b _ hn; simp [Spec.Canon.numOf, specCfg] at hn
+/-- **C04 (`reparse`): serialising what was parsed and parsing again gives the same value.**
+    `from_X(to_string(from_Y(bs))) = from_Y(bs)` for all sources `X`, `Y` and both formatters, whenever the
+    printer/parser pair returns the floats of the value read (`FloatsRoundTrip`: vacuous for a value
+    without floats; C07 + a correct shortest-digits printer under `float_roundtrip`). The only other
+    hypothesis is that a `&str` input is valid UTF-8. -/
+theorem c04_reparse (env : Env) (henv : env.tgt = .value) (ext : Ext) (hext : ExtOK ext) (bs : Bytes) (v : JV)
+    (h : parseTop env bs = .ok v) (hutf : env.src = .str → Spec.Utf8.validUtf8 bs = true)
+    (hfl : FloatsRoundTrip env.cfg ext v) (src' : Src) :
+    (∃ bufs, serCompact ext (ofValue v) = .ok bufs ∧
+      parseTop ⟨env.cfg, src', .value⟩ bufs.flatten = .ok v) ∧
+    (∀ indent, Ws indent → ∃ bufs, serPretty ext indent (ofValue v) = .ok bufs ∧
+      parseTop ⟨env.cfg, src', .value⟩ bufs.flatten = .ok v) :=
+  have hwf := c04_wf_of_parse env henv bs v h hutf
+  ⟨c04_value env.cfg src' ext hext v hwf hfl,
+   fun indent hws => c04_value_pretty env.cfg src' ext hext indent hws v hwf hfl⟩
 
-/-- **`arbitrary_precision`, `from_str`: no float hypothesis** -/
-theorem c04_wf_of_parse_str_ap (cfg : Cfg) (hap : cfg.ap = true) (bs : Bytes)
-    (hutf : Spec.Utf8.validUtf8 bs = true) (v : JV) (h : parseTop ⟨cfg, .str, .value⟩ bs = .ok v) :
-    WFValue cfg v ∧ ∀ (ext : Ext), ExtOK ext → ∀ src',
-      ∃ bufs, serCompact ext (ofValue v) = .ok bufs ∧ parseTop ⟨cfg, src', .value⟩ bufs.flatten = .ok v := by
-  rw [SJ.Props.C09.c09_str_slice_value cfg bs hutf] at h
-  exact c04_wf_of_parse_ap cfg hap .slice (by decide) bs v h
+example : ∃ bufs, serCompact ext0 (ofValue exDocV) = .ok bufs ∧
+    parseTop ⟨{}, .str, .value⟩ bufs.flatten = .ok exDocV :=
+  (c04_reparse ⟨{}, .slice, .value⟩ rfl ext0 ext0_ok exDoc exDocV rfl (fun h => by cases h) (by decide) .str).1
 
-example : WFValue { ap := true } exStrDocV :=
-  (c04_wf_of_parse_str_ap { ap := true } rfl exStrDoc (by decide +kernel) exStrDocV rfl).1
+example : ∃ bufs, serPretty ext0 [0x09] (ofValue exStrDocV) = .ok bufs ∧
+    parseTop ⟨{}, .reader, .value⟩ bufs.flatten = .ok exStrDocV :=
+  (c04_reparse ⟨{}, .str, .value⟩ rfl ext0 ext0_ok exStrDoc exStrDocV rfl (fun _ => by decide +kernel) (by decide)
+    .reader).2 [0x09] (by decide)
 
-/-- **`from_str(to_string(from_str(s))) = from_str(s)`** for every `&str` `s`, whenever the floats of the
-    value read are finite and returned by the printer/parser pair -/
-theorem c04_reparse_str_partial (cfg : Cfg) (ext : Ext) (hext : ExtOK ext) (bs : Bytes)
-    (hutf : Spec.Utf8.validUtf8 bs = true) (v : JV) (h : parseTop ⟨cfg, .str, .value⟩ bs = .ok v)
-    (hfin : finiteFloats v = true) (hfl : FloatsRoundTrip cfg ext v) :
-    ∃ bufs, serCompact ext (ofValue v) = .ok bufs ∧ parseTop ⟨cfg, .str, .value⟩ bufs.flatten = .ok v :=
-  c04_value cfg .str ext hext v (c04_wf_of_parse_str_partial cfg bs hutf v h hfin) hfl
+/-- **C04 (`reparse`) under `arbitrary_precision`: no float hypothesis at all** — numbers are kept as
+    literals, so every parsed value survives serialise-then-deserialise unchanged. -/
+theorem c04_reparse_ap (env : Env) (henv : env.tgt = .value) (hap : env.cfg.ap = true) (ext : Ext)
+    (hext : ExtOK ext) (bs : Bytes) (v : JV) (h : parseTop env bs = .ok v)
+    (hutf : env.src = .str → Spec.Utf8.validUtf8 bs = true) (src' : Src) :
+    (∃ bufs, serCompact ext (ofValue v) = .ok bufs ∧
+      parseTop ⟨env.cfg, src', .value⟩ bufs.flatten = .ok v) ∧
+    (∀ indent, Ws indent → ∃ bufs, serPretty ext indent (ofValue v) = .ok bufs ∧
+      parseTop ⟨env.cfg, src', .value⟩ bufs.flatten = .ok v) :=
+  c04_value_ap env.cfg hap src' ext hext v (c04_wf_of_parse env henv bs v h hutf)
 
-example : ∃ bufs, serCompact ext0 (ofValue exStrDocV) = .ok bufs ∧
-    parseTop ⟨{}, .str, .value⟩ bufs.flatten = .ok exStrDocV :=
-  c04_reparse_str_partial {} ext0 ext0_ok exStrDoc (by decide +kernel) exStrDocV rfl rfl (by decide)
+/-- `[1E400,-0]` under `arbitrary_precision` -/
+example : ∃ bufs, serCompact ext0 (ofValue (.arr [.num (.lit [0x31, 0x45, 0x34, 0x30, 0x30]), .num (.lit [0x2d, 0x30])])) = .ok bufs ∧
+    parseTop ⟨{ ap := true }, .slice, .value⟩ bufs.flatten
+      = .ok (.arr [.num (.lit [0x31, 0x45, 0x34, 0x30, 0x30]), .num (.lit [0x2d, 0x30])]) :=
+  (c04_reparse_ap ⟨{ ap := true }, .str, .value⟩ rfl rfl ext0 ext0_ok
+    [0x5b, 0x31, 0x45, 0x34, 0x30, 0x30, 0x2c, 0x2d, 0x30, 0x5d] _ rfl (fun _ => by decide +kernel) .slice).1
 
 end SJ.Props.C04
